@@ -315,6 +315,10 @@ var superlinearTemplates = []struct{ name, src string }{
 	{"load-many-locals", `local t = {} for i = 1, $N do t[#t + 1] = "local a" .. i .. " = " .. i end
 t[#t + 1] = "return function() return 0" for i = 1, $N do t[#t + 1] = " + a" .. i end t[#t + 1] = " end"
 local f, err = load(table.concat(t, "\n")) return f == nil`},
+	// references to a global from inside deeply nested blocks
+	{"load-globals-in-deep-blocks", `local d = math.min($N // 2, 9000) local t = {} for i = 1, d do t[#t + 1] = "do local v" .. i .. " = 0" end
+for i = 1, $N do t[#t + 1] = "g = g" end for i = 1, d do t[#t + 1] = "end" end
+local f, err = load(table.concat(t, "\n")) return f == nil`},
 	// a chunk that is one long sequence of statements on globals
 	{"load-many-statements", `local t = {} for i = 1, $N * 4 do t[#t + 1] = "x = (x or 0) + " .. i end
 local f, err = load(table.concat(t, "\n")) return f == nil`},
